@@ -39,7 +39,11 @@ def parseLine (line : String) : Except String RawCpt :=
     match typeOf name with
     | none => .error s!"unsupported:type:{name}"
     | some (ty, nn) =>
-      if rest.length < nn then .error s!"syntax:too-few-nodes:{name}"
+      -- `Ename Np Nm opamp Ncp Ncm [Ad] [Ac] [Ro]` (grammar rule Eopamp: keyword after the second node)
+      if ty = "E" && rest[2]? = some "opamp" then
+        if rest.length < 5 then .error s!"syntax:too-few-nodes:{name}"
+        else .ok ⟨name, "Eopamp", (rest.take 2) ++ ((rest.drop 3).take 2), rest.drop 5⟩
+      else if rest.length < nn then .error s!"syntax:too-few-nodes:{name}"
       else .ok ⟨name, ty, rest.take nn, rest.drop nn⟩
 
 /-- strip one level of braces and parse a rational value -/
@@ -251,8 +255,24 @@ structure Elab where
   brs : List String
   cpts : List (String × Cpt GQ)      -- (component name, evaluated component)
 
+/-- `Eopamp._expand`: an opamp becomes a VCVS `E__<name>` (and, when the output resistance Ro is
+    present and non-zero, a resistor `R__<name>` from a fresh internal node to the output node) -/
+def expandRaw (c : RawCpt) : List RawCpt :=
+  if c.ty = "Eopamp" then
+    let n (i : Nat) : String := c.nodes.getD i "?"
+    let ad := c.args.getD 0 c.name
+    let ac := c.args.getD 1 "0"
+    let ro := c.args.getD 2 "0"
+    if parseVal ro = some 0 then
+      [⟨"E__" ++ c.name, "E", [n 0, n 1, n 2, n 3], [ad, ac]⟩]
+    else
+      let o := "_nodeanon_" ++ c.name
+      [⟨"E__" ++ c.name, "E", [o, n 1, n 2, n 3], [ad, ac]⟩, ⟨"R__" ++ c.name, "R", [o, n 0], [ro]⟩]
+  else [c]
+
 def elaborate (an : Analysis) (lines : List String) : Except String Elab := do
-  let raw ← lines.mapM parseLine
+  let raw0 ← lines.mapM parseLine
+  let raw := raw0.flatMap expandRaw
   let cls ← nodeClasses raw
   let brs := branchList raw
   let cpts ← raw.foldlM (fun acc c => do
